@@ -15,7 +15,7 @@ from loki.ir.nodes import VariableDeclaration, Pragma, PragmaRegion
 from loki.ir.find import FindNodes
 from loki.ir.transformer import Transformer
 from loki.ir.visitor import Visitor
-from loki.tools.util import as_tuple, replace_windowed
+from loki.tools.util import as_tuple
 from loki.logging import debug, warning
 
 
@@ -569,15 +569,17 @@ class PragmaRegionAttacher(Transformer):
     def visit_tuple(self, o, **kwargs):
         """ Replace pragma-body-end in tuples """
         for start, stop in self.pragma_pairs:
-            if start in o:
+            # Locate the pragma objects themselves: pragmas without source
+            # information compare equal whenever their text is the same
+            idx_start = next((i for i, n in enumerate(o) if n is start), None)
+            if idx_start is not None:
                 # If a pair does not live in the same tuple we have a problem.
-                if stop not in o:
+                idx_stop = next((i for i, n in enumerate(o) if n is stop), None)
+                if idx_stop is None:
                     warning(f'[Loki::IR] Cannot find matching end for pragma {start} at same IR level!')
                     continue
 
                 # Create the PragmaRegion node and replace in tuple
-                idx_start = o.index(start)
-                idx_stop = o.index(stop)
                 region = PragmaRegion(
                     body=o[idx_start+1:idx_stop], pragma=start, pragma_post=stop
                 )
@@ -632,10 +634,13 @@ class PragmaRegionDetacher(Transformer):
         # We unpack regions here to avoid creating nested tuples, or
         # forcing general tuple-flattening, which can affect other
         # nodes types.
-        regions = tuple(n for n in o if isinstance(n, PragmaRegion))
-        for r in regions:
-            handle = (r.pragma,) + self.visit(r.body, **kwargs) + (r.pragma_post,)
-            o = replace_windowed(o, r, subs=handle)
+        unpacked = ()
+        for n in o:
+            if isinstance(n, PragmaRegion):
+                unpacked += (n.pragma,) + self.visit(n.body, **kwargs) + (n.pragma_post,)
+            else:
+                unpacked += (n,)
+        o = unpacked
 
         # First recurse over the new nodes
         visited = tuple(self.visit(i, **kwargs) for i in o)
